@@ -1,7 +1,7 @@
 (* Properties/C06.v — C06: a data node restarted after a crash serves exactly the acknowledged state.
    This file contains only the property theorems (closed by [exact]) and non-vacuity examples. *)
 From Coq Require Import NArith List Bool.
-From ZV Require Import Recover.Consts Recover.Path Recover.ProofsWal Recover.ProofsInv Recover.ProofsMain Recover.Proofs.
+From ZV Require Import Recover.Consts Recover.Path Recover.ProofsWal Recover.ProofsWal2 Recover.ProofsInv Recover.ProofsMain Recover.Proofs.
 Import ListNotations.
 Open Scope N_scope.
 
@@ -11,32 +11,37 @@ Proof. exact crash_enabled. Qed.
 Print Assumptions C06_crash_any_instant.
 
 (* the restart procedure on a well-shaped persistent world: the WAL's live segments hold exactly the entries
-   lo+1..hi cut at the segment names, the newest snapshot marker m is valid (<= the last saved commit), the
-   first live segment does not start after m, and m has its snap file and its checkpoint with the state at m:
-   then the restart succeeds and serves the state after applying entries 1..hi in order *)
-Theorem C06_restart_of_wellformed_world : forall ss lo hi sf cks m, local_recs (all_recs ss) ->
+   lo+1..hi cut at the segment names (the record of an installed snapshot standing for the entries it replaced), every
+   installed snapshot is at or below the newest marker m, m is valid (<= the last saved commit) and no valid marker
+   with a snap file is above it, the first live segment does not start after m, and m has its snap file and its
+   checkpoint with the state at m: then the restart succeeds and serves the state after applying entries 1..hi in order *)
+Theorem C06_restart_of_wellformed_world : forall ss lo hi sf cks m,
+  (forall h m0, In (h, m0) (jumps (all_recs ss)) -> m0 <= m /\ h < m0) ->
   seg_chain lo ss hi -> lo = lo_of ss ->
-  In m (markers (all_recs ss)) -> (forall i, In i (markers (all_recs ss)) -> i <= m) ->
-  (forall i, In i (markers (all_recs ss)) -> i <= last_commit (all_recs ss)) ->
+  In m (pmarkers (all_recs ss)) -> (forall f, In f sf -> In f (valid_markers ss) -> f <= m) ->
+  m <= last_commit (all_recs ss) ->
   sfirst (hd (mkSeg 0 []) ss) <= m ->
   ~ In 0 sf ->
   (0 < m -> In m sf /\ lookup m cks = Some (range 0 m)) ->
   recover ss sf cks = Ok (range 0 hi).
-Proof. exact recover_chain. Qed.
+Proof. exact recover_chain2. Qed.
 Print Assumptions C06_restart_of_wellformed_world.
 
 (* C06 on the path model. For every run of the model from a fresh directory (any interleaving of the raft loop,
    the apply loop, the snapshot goroutines, the backup loop and the purge loops at sub-step granularity; any
-   Readys the raft library may hand out; any number of earlier process deaths and restarts, also deaths during a
-   restart) that respects the schedule hypothesis (whenever the snap directory purge decides to remove a file, fewer
-   snapshot goroutines are between "snap file written" and "WAL marker written" than snap files it keeps; the code
-   keeps at least two, so one such goroutine is always fine), for every instant of the process death (every reachable state is one) and every crash
+   the installation of snapshots a leader sends (checkpoint fetched, snap file, WAL record, hard state, engine
+   replaced, raft storage updated), the Readys the raft library hands out (an incoming snapshot alone in its Ready:
+   see C06_snapshot_and_entries_refuted); any number of earlier process deaths and restarts, also deaths during a
+   restart) that respects the schedule hypotheses (whenever the snap directory purge decides to remove a file, fewer
+   snapshots are between "snap file written" and "WAL marker valid" than snap files it keeps; the code keeps at least
+   two, so one is always fine; the backup loop's checkpoint purge does not start between the snap file of an
+   incoming snapshot and the hard state that makes its WAL record valid), for every instant of the process death (every reachable state is one) and every crash
    image of that state under process death (any part of the buffered WAL records lost, any prefix of a Save in
    flight written): the restart procedure (choose the newest snapshot that the WAL records and whose file exists,
    restore the engine from its checkpoint, read the WAL back from it, replay) succeeds, and the state it serves is
    the result of applying the entries 1..k in order, with k at least the last acknowledged index and at most the
    last proposed one. The engine content found after the death is never used. *)
-Theorem C06_recover_correct : forall c evs s, fixed c -> local_only evs ->
+Theorem C06_recover_correct : forall c evs s, fixed c ->
   run c init_state evs = Ok s -> sched_ok c init_state evs ->
   forall j extra ss, image s j extra = Some ss ->
   exists k, recover ss (snapfiles s) (ckpts s) = Ok (range 0 k) /\ acked s <= k <= proposed s.
@@ -47,14 +52,15 @@ Print Assumptions C06_recover_correct.
    computed before every event and the event log is rejected (reason R_SCHED) when it is false, so for the runs the
    correspondence is established on the hypothesis is a checked fact, and the evidence records the largest number
    of snapshot goroutines seen in the window at a decision of the snap directory purge *)
-Theorem C06_recover_correct_on_checked_runs : forall c evs s, fixed c -> local_only evs ->
+Theorem C06_recover_correct_on_checked_runs : forall c evs s, fixed c ->
   run c init_state evs = Ok s -> sched_holds_run c init_state evs = true ->
   forall j extra ss, image s j extra = Some ss ->
   exists k, recover ss (snapfiles s) (ckpts s) = Ok (range 0 k) /\ acked s <= k <= proposed s.
-Proof. intros c evs s Hf Hl Hr Hs. eapply recover_correct; eauto. apply sched_holds_run_ok. exact Hs. Qed.
+Proof. intros c evs s Hf Hr Hs. eapply recover_correct; eauto. apply sched_holds_run_ok. exact Hs. Qed.
 Print Assumptions C06_recover_correct_on_checked_runs.
 
-(* the same property without the schedule hypothesis is false of the model (C06_two_snapshots_in_flight_refuted below) *)
+(* the same property without the schedule hypotheses is false of the model (C06_two_snapshots_in_flight_refuted and
+   C06_ckpt_purge_in_window_refuted below) *)
 Definition C06_full : Prop := forall c evs s, fixed c ->
   run c init_state evs = Ok s ->
   forall j extra ss, image s j extra = Some ss ->
@@ -63,8 +69,8 @@ Definition C06_full : Prop := forall c evs s, fixed c ->
 (* the ordering invariants of the design, for every reachable state: (I1, I2) the newest snapshot marker of the WAL
    has its snap file and its checkpoint, and the checkpoint holds the state at that index; (I3) the live WAL
    segments do not start after that snapshot and still hold its marker; (I4) every acknowledged entry is in every
-   crash image of the WAL *)
-Theorem C06_ordering_invariants : forall c evs s, fixed c -> local_only evs ->
+   crash image of the WAL (as an entry record, or covered by the valid record of an installed snapshot) *)
+Theorem C06_ordering_invariants : forall c evs s, fixed c ->
   run c init_state evs = Ok s -> sched_ok c init_state evs ->
   I1_I2_newest_marker_has_file_and_checkpoint s /\ I3_wal_not_purged_past_newest_snapshot s
   /\ I4_acknowledged_entries_are_in_every_crash_image s.
@@ -83,17 +89,76 @@ Proof. split; [exact engine_untrusted_after_crash | exact engine_trusted_only_af
 Print Assumptions C06_engine_never_trusted.
 
 (* the restart never needs a manual repair: from the state right after a process death the steps of startRaft are
-   enabled one after the other up to the running node, which holds the snapshot state and the WAL tail to replay *)
+   enabled one after the other up to the running node, which holds the snapshot state and the WAL tail to replay;
+   the restart writes nothing to the WAL and leaves the loops idle *)
 Theorem C06_restart_succeeds : forall c s,
   Inv c s -> rc s = RcStart ->
   exists evs s', run c s evs = Ok s' /\ running s' = true
     /\ applied s' = newest (segs s) /\ engine s' = Some (range 0 (newest (segs s)))
-    /\ range (applied s') (rs_last s') = range (newest (segs s)) (rs_last s') /\ acked s <= rs_last s' <= proposed s.
+    /\ range (applied s') (rs_last s') = range (newest (segs s)) (rs_last s') /\ acked s <= rs_last s' <= proposed s
+    /\ quiet_restart evs s s'.
 Proof. exact restart_succeeds. Qed.
 Print Assumptions C06_restart_succeeds.
 
+(* FOLLOWERS. A replica of a group killed anywhere, also anywhere inside the installation of a snapshot its leader
+   sent (checkpoint being fetched, snap file written, WAL record written, hard state not yet, engine directory emptied,
+   checkpoint half copied, raft storage not yet updated ...), and restarted before it hears of its peers, serves a
+   prefix-state: the result of applying entries 1..k in order, k at least its newest valid snapshot and at most what
+   was proposed. Never a mixture of the old engine content and a partly copied checkpoint. (An isolated replica
+   applies only up to the commit index it finds in its WAL, so k may be below what it had applied before the death:
+   the stale reads of a follower are prefix-consistent, not monotonic across a restart.) *)
+Theorem C06_follower_restart_prefix_state : forall c evs s, fixed c ->
+  run c init_state evs = Ok s -> sched_ok c init_state evs ->
+  forall j extra ss, image s j extra = Some ss ->
+  exists k, recover_isolated ss (snapfiles s) (ckpts s) = Ok (range 0 k) /\ newest ss <= k <= proposed s.
+Proof. exact follower_restart_prefix_state. Qed.
+Print Assumptions C06_follower_restart_prefix_state.
+
+(* the installation of a leader's snapshot, end to end, is a run of the model that the schedule check accepts *)
+Example C06_install_example :
+  exists s, run (cfg2 true) init_state trace_install = Ok s
+    /\ sched_holds_run (cfg2 true) init_state trace_install = true
+    /\ engine s = Some [1; 2; 3; 4; 5; 6; 7; 8; 9] /\ applied s = 9 /\ rs_last s = 9 /\ snapfiles s = [9; 5]
+    /\ recover_state s 0 0 = Ok [1; 2; 3; 4; 5; 6; 7; 8; 9].
+Proof. exact install_example. Qed.
+
+(* convergence, on that scenario (a replica with a snapshot at 5 and entry 6 whose leader compacted up to 9): killed
+   after each of the 24 sub-steps of the installation (and before the first), for every crash image of that
+   instant, the restart succeeds, the restarted replica serves the state at 5 or the state at 9, the leader's snapshot
+   is accepted again where it is still needed (the checkpoint found on the local disk, or fetched again) and the
+   replica ends serving the leader's state, which is also what a further restart would serve. One scenario, all its
+   crash points: computed, not a theorem about all runs (the general safety part is the theorem above) *)
+Theorem C06_install_converges_at_every_crash_point_partial :
+  forallb (fun n => forallb (fun j => forallb (fun extra => install_crash_check n j extra) (seq 0 3)) (seq 0 3))
+          (seq 0 (S (length (ev_install 6 9 (ev_fetch 9))))) = true.
+Proof. exact install_converges_at_every_crash_point. Qed.
+Print Assumptions C06_install_converges_at_every_crash_point_partial.
+
+(* recovering twice in a row: a node that died (anywhere: also inside a restart or an installation) is restarted,
+   the purge loops run (their first pass is at the start of the node; any number of their steps, under the schedule
+   hypothesis), it dies again before it has written anything and is restarted again: the second restart serves what the
+   first one served, namely every entry of the WAL image *)
+Theorem C06_recover_idempotent : forall c s, fixed c -> Inv c s -> rc s = RcStart ->
+  exists evs s', run c s evs = Ok s' /\ running s' = true /\
+    forall pg s2, forallb is_purge pg = true -> sched_ok c s' pg -> run c s' pg = Ok s2 ->
+    forall j extra ss2, image s2 j extra = Some ss2 ->
+      recover ss2 (snapfiles s2) (ckpts s2) = recover (segs s) (snapfiles s) (ckpts s)
+      /\ recover (segs s) (snapfiles s) (ckpts s) = Ok (range 0 (last_entry (all_recs (segs s)))).
+Proof. exact recover_idempotent. Qed.
+Print Assumptions C06_recover_idempotent.
+
+(* interface to C07. The state the model serves is the list of the applied indices: what a restart serves does not
+   depend on how raft groups the replayed entries into Readys nor on how the apply loop groups them into batches
+   (applying a+1..b and then b+1..c is applying a+1..c). That one engine write batch of commands equals the commands
+   applied one by one, reply by reply, is C07 (Properties/C07.v C07_batch_equiv_partial, from coq/Determ and
+   coq/Data/Batch.v); the check of C06 exercises it on the code with entries the leader accepted and the apply refuses
+   (SETEX with a bad duration) inside replayed groups *)
+Theorem C06_replay_independent_of_grouping : forall a b c, a <= b -> b <= c -> range a b ++ range b c = range a c.
+Proof. exact replay_grouping. Qed.
+Print Assumptions C06_replay_independent_of_grouping.
+
 (* the invariant is what every reachable state satisfies (so C06_restart_succeeds applies after every death) *)
-Theorem C06_invariant_reachable : forall c evs s, fixed c -> local_only evs ->
+Theorem C06_invariant_reachable : forall c evs s, fixed c ->
   sched_ok c init_state evs -> run c init_state evs = Ok s -> Inv c s.
 Proof. exact inv_reachable. Qed.
 Print Assumptions C06_invariant_reachable.
@@ -165,3 +230,30 @@ Example C06_fixed_code_rejects_old_orders :
   /\ snd (run_from (cfg2 true) init_state trace_orphans 0) = Some (138, R_GUARD)
   /\ snd (run_from (cfg2 true) init_state trace_capture_before_flush 0) = Some (54, R_PC).
 Proof. split; [exact ack_before_save_rejected_now | split; [exact orphans_rejected_now | exact capture_before_flush_rejected_now]]. Qed.
+
+(* OPEN FINDING (known_findings.d/recover.jsonl): a Ready with an incoming snapshot S and entries above S, saved in one
+   wal.Save; death between the entry records and the hard state record. The record of S is not valid, the restart
+   reads from the older snapshot and meets the gap: index out of range, the node does not start (with the hard state,
+   or without the entries, it does). The path model does not follow such Readys (the acceptor answers R_ENV: outside,
+   not accepted), so the theorems above do not speak about them *)
+Theorem C06_snapshot_and_entries_refuted :
+  recover (wal_snapshot_and_entries false) [9] [(9, Some (range 0 9))] = Err E_OUT_OF_RANGE
+  /\ recover_isolated (wal_snapshot_and_entries false) [9] [(9, Some (range 0 9))] = Err E_OUT_OF_RANGE
+  /\ recover (wal_snapshot_and_entries true) [9] [(9, Some (range 0 9))] = Ok (range 0 11)
+  /\ recover wal_snapshot_alone [9] [(9, Some (range 0 9))] = Ok [1; 2].
+Proof. exact snapshot_and_entries_refuted. Qed.
+Print Assumptions C06_snapshot_and_entries_refuted.
+
+Theorem C06_snapshot_ready_carries_no_entries : forall s r, ready_ok s r = true -> 0 < r_snap r -> r_n r = 0 /\ r_cn r = 0.
+Proof. exact snapshot_ready_carries_no_entries. Qed.
+Print Assumptions C06_snapshot_ready_carries_no_entries.
+
+(* the second schedule hypothesis is needed: the checkpoint purge starting between the snap file of an incoming
+   snapshot and the hard state that makes its record valid takes that snapshot's index as its bound and, with two
+   local checkpoints whose markers are not written yet, removes the checkpoint of the newest valid snapshot *)
+Theorem C06_ckpt_purge_in_window_refuted :
+  exists s, run (cfg2 true) init_state trace_ckpt_purge_in_window = Ok s
+    /\ acked s = 7 /\ map fst (ckpts s) = [9; 7; 6] /\ recover_state s 0 0 = Err E_NO_BACKUP
+    /\ sched_holds_run (cfg2 true) init_state trace_ckpt_purge_in_window = false.
+Proof. exact ckpt_purge_in_window_refuted. Qed.
+Print Assumptions C06_ckpt_purge_in_window_refuted.
